@@ -1,14 +1,121 @@
 (* C09 (counting windows). Lines (value tokens and row syntax: see c04.ml):
      W <N> <ncols> <nrows> {id v..} # {nids ids..}                          batches read from the window's OutputChan, in order
-     S <tag> <N> <ncols> <nrows> {id v..} # {v.. count first last nids ids..}   result rows through SQL, in sink order *)
+     S <tag> <N> <ncols> <nrows> {id v..} # {v.. count first last nids ids..}   result rows through SQL, in sink order
+   Carried numbers (Model/NumCarrier.v): a numeric value token names the Go type that carries the number,
+       I<type>:<decimal>      F<type>:<hex of the float64 text>:<hex of the float32 text | ->
+   with <type> in int i8 i16 i32 i64 uint u8 u16 u32 u64 f32 f64; the other value tokens are those of c04.ml.
+     V <tag> <N> <ncols> <nrows> {id v..} # {nids ids..}                          as W, carried rows
+     Y <tag> <N> <ncols> <nrows> {id v..} # {v.. count first last nids ids..}     as S, carried rows
+     N <carried value> <hex of cast.GroupKeyPart> <hex of CountingWindow.getKey>  the two key sites, one carrier
+   V / Y are judged by the same checkers on the NUMBERS (erase_row); the model of the code runs on the
+   carried rows: buffers keyed by c_cnt_key, every batch grouped by c_agg_key. *)
 open Model
 open Util
 
 let nontrivial (n : int) (rows : krow list) (batches : z list list) : bool =
   ignore n; C04.distinct_tuples rows >= 2 && List.length batches >= 2
 
+(* ---- carried numbers ------------------------------------------------------------------------ *)
+let gotype_of = function
+  | "int" -> GInt | "i8" -> GInt8 | "i16" -> GInt16 | "i32" -> GInt32 | "i64" -> GInt64
+  | "uint" -> GUint | "u8" -> GUint8 | "u16" -> GUint16 | "u32" -> GUint32 | "u64" -> GUint64
+  | "f32" -> GFloat32 | "f64" -> GFloat64
+  | t -> failwith ("bad carrier " ^ t)
+
+(* decimal text of any size -> Z (uint64 values do not fit an OCaml int) *)
+let z_of_dec (s : string) : z =
+  let neg = String.length s > 0 && s.[0] = '-' in
+  let body = if neg then String.sub s 1 (String.length s - 1) else s in
+  if body = "" then failwith "bad number";
+  let digits = Array.init (String.length body) (fun i ->
+      let d = Char.code body.[i] - 48 in if d < 0 || d > 9 then failwith ("bad number " ^ s) else d) in
+  let is_zero () = Array.for_all (fun d -> d = 0) digits in
+  let halve () =
+    let carry = ref 0 in
+    Array.iteri (fun i d -> let cur = !carry * 10 + d in digits.(i) <- cur / 2; carry := cur mod 2) digits;
+    !carry in
+  let rec bits () = if is_zero () then [] else (let b = halve () in b :: bits ()) in  (* least significant first *)
+  let rec pos = function
+    | [1] -> XH | 0 :: r -> XO (pos r) | 1 :: r -> XI (pos r) | _ -> failwith "z_of_dec" in
+  match bits () with
+  | [] -> Z0
+  | bl -> if neg then Zneg (pos bl) else Zpos (pos bl)
+
+let parse_cvalue (tok : string) : cvalue =
+  let rest () = String.split_on_char ':' (String.sub tok 1 (String.length tok - 1)) in
+  match tok.[0] with
+  | 'I' -> (match rest () with
+            | [ty; d] -> CNum (gotype_of ty, NumInt (z_of_dec d))
+            | _ -> failwith ("bad value token " ^ tok))
+  | 'F' -> (match rest () with
+            | [ty; h64; h32] ->
+                CNum (gotype_of ty, NumFrac (bytes_of_hex h64, if h32 = "-" then None else Some (bytes_of_hex h32)))
+            | _ -> failwith ("bad value token " ^ tok))
+  | _ -> CPlain (C04.parse_value tok)
+
+let parse_crows (ncols : int) (nrows : int) (toks : string list) : crow list * string list =
+  let rec go n toks = if n = 0 then ([], toks) else
+      (match toks with
+       | id :: r -> let (vs, r') = C04.take ncols r in
+                    let (rows, r'') = go (n - 1) r' in
+                    ({ crid = C04.zs id; cvals = List.map parse_cvalue vs } :: rows, r'')
+       | [] -> failwith "short rows") in
+  go nrows toks
+
+(* the model of the code on carried rows (row ids are distinct within a case) *)
+let carried_model (n : int) (crows : crow list) : z list list * z list list =
+  let rows = List.map erase_row crows in
+  let find kr = List.find (fun c -> c.crid = kr.krid) crows in
+  let batches = List.map snd (snd (cw_steps (fun kr -> c_cnt_key (find kr)) (nat_of_int n) [] rows)) in
+  let ids rs = List.map (fun r -> r.krid) rs in
+  let results = List.concat_map (fun b ->
+      List.map snd (C04.sort_by_first (List.map (fun (t, rs) -> (t, ids rs)) (kgroup_by (fun kr -> c_agg_key (find kr)) b))))
+      batches in
+  (List.map ids batches, results)
+
+(* non-trivial: some delivered batch holds one value in two different carriers *)
+let mixed_carriers (crows : crow list) (batches : z list list) : bool =
+  List.exists (fun b ->
+      match List.filter (fun c -> List.mem c.crid b) crows with
+      | c :: rest -> List.exists (fun d -> d.cvals <> c.cvals) rest
+      | [] -> false) batches
+
+let carried_verdict (chk : gclause option) (model : z list list) (impl : z list list) (crows : crow list) : string =
+  let differs = if model <> impl then " (and model differs: model=" ^ C04.show_batches model ^ ")" else "" in
+  match chk with
+  | Some c -> "chk " ^ C04.string_of_gclause c ^ differs
+  | None ->
+      if model <> impl then "diff carried_batches model=" ^ C04.show_batches model
+      else if mixed_carriers crows impl then "ok nt" else "ok"
+
 let handle (toks : string list) : string =
   match toks with
+  | "V" :: _tag :: n :: ncols :: nrows :: rest ->
+      let n = int_of_string n and ncols = int_of_string ncols in
+      let (crows, r) = parse_crows ncols (int_of_string nrows) rest in
+      if not (List.for_all crow_carried crows) then "bad carrier cannot hold the value" else
+      (match r with
+       | "#" :: obs ->
+           let batches = C04.parse_idlists obs in
+           carried_verdict (chk_C09 (nat_of_int n) (List.map erase_row crows) batches) (fst (carried_model n crows)) batches crows
+       | _ -> "bad line")
+  | "Y" :: _tag :: n :: ncols :: nrows :: rest ->
+      let n = int_of_string n and ncols = int_of_string ncols in
+      let (crows, r) = parse_crows ncols (int_of_string nrows) rest in
+      if not (List.for_all crow_carried crows) then "bad carrier cannot hold the value" else
+      (match r with
+       | "#" :: obs ->
+           let res = C04.parse_results ncols true obs in
+           carried_verdict (chk_C09_sql (nat_of_int n) (List.map erase_row crows) res) (snd (carried_model n crows))
+             (List.map (fun g -> g.g_ids) res) crows
+       | _ -> "bad line")
+  | ["N"; tok; part; key] ->
+      let c = parse_cvalue tok in
+      if not (cvalue_carried c) then "bad carrier cannot hold the value" else
+      let mpart = hex_of_bytes (c_agg_part c) and mkey = hex_of_bytes (c_cnt_key { crid = Z0; cvals = [c] }) in
+      if mpart <> part then "diff key_part_carrier model=" ^ mpart
+      else if mkey <> key then "diff key_cnt_carrier model=" ^ mkey
+      else "ok nt"
   | "W" :: n :: ncols :: nrows :: rest ->
       let n = int_of_string n and ncols = int_of_string ncols in
       let (rows, r) = C04.parse_rows ncols (int_of_string nrows) rest in
